@@ -10,7 +10,7 @@ Stubs: see C06_build (structural `hash`, `np.isnan`, `float`->Num inside Paramet
 import copy
 import os
 
-from C06_build import (D, P, R, X, UNITS, Num, fields, mk_cats, mk_col, mk_di, mk_est, mk_opts, mk_param, mk_params,
+from C06_build import (D, P, R, X, UNITS, Num, fields, frozenmapping, mk_cats, mk_col, mk_di, mk_est, mk_opts, mk_param, mk_params,
                        mk_sim, mk_steps, mk_strs, mk_vh, mk_vl, num_float_mode, property_names, reachable,
                        real_hash_mode, shash, small, snapshot, unchanged, install_structural_hash)
 from pharmpy.model.distributions.symbolic import Distribution
@@ -21,9 +21,14 @@ MAXN = int(os.environ.get('VH_MAXN', '2'))          # elements per collection
 NU = int(os.environ.get('VH_NU', '2'))              # units used from the table
 DESC = os.environ.get('VH_DESC', 'same')            # ColumnInfo descriptors of a and b: same | free (finding F1)
 NOPT = int(os.environ.get('VH_NOPT', '1'))          # max tool_options entries; 2 = finding F2 isolated
-CATA = int(os.environ.get('VH_CATA', '-1'))         # case split: categories kind of object a
+CATA = int(os.environ.get('VH_CATA', '0'))         # case split: categories kind of object a
 NONES = os.environ.get('VH_NONES', '0') == '1'      # Optional fields: 0 = all set, 1 = None per group (symbolic)
-NANB = os.environ.get('VH_NANB', '0') == '1'
+STRLEN = int(os.environ.get('VH_STRLEN', '2'))      # string length bound
+NK = int(os.environ.get('VH_NK', '2'))              # dict keys used from C06_build.KEYS
+CATKINDS = tuple(int(x) for x in os.environ.get('VH_CATKINDS', '0,1,3').split(','))
+NA = int(os.environ.get('VH_NA', '2'))              # case split: number of elements of object a
+SHAPE = tuple(int(x) for x in os.environ.get('VH_SHAPE', '1,1').split(','))
+PK = int(os.environ.get('VH_K', '-1'))              # case split for replace obligations
 
 
 # ---------------------------------------------------------------------------------------------------------
@@ -128,7 +133,7 @@ def param_replace(name: str, init: float, lower: float, upper: float, fix: bool,
                   newfix: bool) -> bool:
     """
     replace() of a valid parameter: new valid parameter or ValueError; the original keeps its fields.
-    pre: lower <= init <= upper and 0 <= k <= 4
+    pre: lower <= init <= upper and 0 <= k <= 4 and (PK < 0 or k == PK)
     pre: v == v or k == 1
     post: _ == True
     """
@@ -166,7 +171,7 @@ def params_create_unique(n: int, n1: str, n2: str, n3: str, n4: str, via: int) -
     """
     Parameters.create (via 0), Parameters + Parameter (via 1), Parameter + Parameters (2), Parameters + Parameters (3),
     Parameters + [Parameter] (4), replace(parameters=) (5): names unique or ValueError.
-    pre: 0 <= n <= MAXN + 1 and 0 <= via <= 5
+    pre: 0 <= n <= MAXN + 1 and 0 <= via <= 5 and (PK < 0 or via == PK)
     pre: small(n1, 2, 'ab') and small(n2, 2, 'ab') and small(n3, 2, 'ab') and small(n4, 2, 'ab')
     post: _ == True
     """
@@ -229,6 +234,9 @@ class FakeDist(Distribution):
         return 0
 
 
+FakeDist.__abstractmethods__ = frozenset()
+
+
 def rvs_create_unique(n: int, n1: str, n2: str, n3: str, joint: bool) -> bool:
     """
     RandomVariables.create over a sequence of distributions: all random-variable names unique or ValueError.
@@ -251,177 +259,230 @@ def rvs_create_unique(n: int, n1: str, n2: str, n3: str, joint: bool) -> bool:
 
 # ---------------------------------------------------------------------------------------------------------
 # equality laws per class
+#
+# String lengths: CrossHair decides `s == t` for two symbolic strings by enumerating len(t), so every string is
+# bounded; in the classes with many string fields all strings of one object have one (symbolic) length la / lb
+# (`ulen`), characters are unconstrained.
+
+def ulen(n, *strs):
+    return all(len(s) == n for s in strs)
+
 
 def eqhash_Parameter(an: str, ai: float, al: float, au: float, af: bool,
                      bn: str, bi: float, bl: float, bu: float, bf: bool) -> bool:
     """
+    All fields independent.  NaN bounds: param_create_nan_bound (create accepts them); NaN init is rejected by create
+    (such an object is not reachable).
     pre: al == al and au == au and bl == bl and bu == bu
+    pre: small(an, STRLEN) and small(bn, STRLEN)
     post: _ == True
     """
     return eq_obligation(mk_param(an, ai, al, au, af), mk_param(bn, bi, bl, bu, bf))
 
 
-def eq3_Parameter(an: str, ai: float, al: float, af: bool, bn: str, bi: float, bl: float, bf: bool,
-                  cn: str, ci: float, cl: float, cf: bool) -> bool:
+def eq3_Parameter(an: str, ai: float, af: bool, bn: str, bi: float, bf: bool, cn: str, ci: float, cf: bool) -> bool:
     """
     transitivity
-    pre: al == al and bl == bl and cl == cl
+    pre: ai == ai and bi == bi and ci == ci
+    pre: small(an, STRLEN) and small(bn, STRLEN) and small(cn, STRLEN)
     post: _ == True
     """
     inf = float('inf')
-    return trans_obligation(mk_param(an, ai, al, inf, af), mk_param(bn, bi, bl, inf, bf), mk_param(cn, ci, cl, inf, cf))
+    return trans_obligation(mk_param(an, ai, -inf, inf, af), mk_param(bn, bi, -inf, inf, bf),
+                            mk_param(cn, ci, -inf, inf, cf))
 
 
-def eqhash_Parameters(na: int, a1n: str, a1i: float, a1l: float, a1f: bool, a2n: str, a2i: float, a2l: float,
-                      a2f: bool, a3n: str, a3i: float, a3f: bool,
-                      nb: int, b1n: str, b1i: float, b1l: float, b1f: bool, b2n: str, b2i: float, b2l: float,
-                      b2f: bool, b3n: str, b3i: float, b3f: bool) -> bool:
+def _pelem(name, init, lower, fix):
+    return mk_param(name, init, lower, float('inf'), fix)
+
+
+def eqhash_Parameters(la: int, na: int, a1n: str, a1i: float, a1l: float, a1f: bool, a2n: str, a2i: float, a2l: float,
+                      a2f: bool, a3n: str, a3i: float, a3l: float, a3f: bool,
+                      lb: int, nb: int, b1n: str, b1i: float, b1l: float, b1f: bool, b2n: str, b2i: float, b2l: float,
+                      b2f: bool, b3n: str, b3i: float, b3l: float, b3f: bool) -> bool:
     """
-    pre: 0 <= na <= MAXN and 0 <= nb <= MAXN
-    pre: a1l == a1l and a2l == a2l and b1l == b1l and b2l == b2l
+    Elements: symbolic name, init, lower, fix (upper = inf).
+    pre: 0 <= na <= MAXN and 0 <= nb <= MAXN and 0 <= la <= STRLEN and 0 <= lb <= STRLEN
+    pre: ulen(la, a1n, a2n, a3n) and ulen(lb, b1n, b2n, b3n)
+    pre: a1l == a1l and a2l == a2l and a3l == a3l and b1l == b1l and b2l == b2l and b3l == b3l
     post: _ == True
     """
-    inf = float('inf')
-    pa = [mk_param(a1n, a1i, a1l, inf, a1f), mk_param(a2n, a2i, a2l, inf, a2f), mk_param(a3n, a3i, -inf, inf, a3f)]
-    pb = [mk_param(b1n, b1i, b1l, inf, b1f), mk_param(b2n, b2i, b2l, inf, b2f), mk_param(b3n, b3i, -inf, inf, b3f)]
+    pa = [_pelem(a1n, a1i, a1l, a1f), _pelem(a2n, a2i, a2l, a2f), _pelem(a3n, a3i, a3l, a3f)]
+    pb = [_pelem(b1n, b1i, b1l, b1f), _pelem(b2n, b2i, b2l, b2f), _pelem(b3n, b3i, b3l, b3f)]
     return eq_obligation(mk_params(pa[:na]), mk_params(pb[:nb]))
 
 
-def _cat_ok(kind):
-    return 0 <= kind <= 4 and (CATA < 0 or True)
+# Enumerated-option fields (validated by create against fixed tables) take concrete valid values: object a the base
+# values, object b the base values except for at most one field, chosen by the symbolic index d, which takes the
+# alternative value.  (Arbitrary symbolic strings would make every object unreachable for the filter.)
+CI_OPT = ['type', 'unit', 'scale', 'datatype', 'descriptor']
+CI_BASE = [dict(type='covariate', unit=0, scale='ratio', datatype='float64', descriptor='age'),
+           dict(type='id', unit=1, scale='nominal', datatype='int32', descriptor=None)]
+BASE = int(os.environ.get('VH_BASE', '0'))
 
 
-def eqhash_ColumnInfo(an: str, at: str, au: int, asc: str, ac: bool, ak: int, ac1: str, ac2: str, adr: bool,
-                      adt: str, adn: bool, ads: str,
-                      bn: str, bt: str, bu: int, bsc: str, bc: bool, bk: int, bc1: str, bc2: str, bdr: bool,
-                      bdt: str, bdn: bool, bds: str) -> bool:
+def _ci_opts(d):
+    o = dict(CI_BASE[BASE])
+    if d > 0:
+        f = CI_OPT[d - 1]
+        o[f] = CI_BASE[1 - BASE][f]
+    return o
+
+
+def _ci(name, cont, cats, drop, o):
+    return mk_col(name, o['type'], o['unit'], o['scale'], cont, cats, drop, o['datatype'], o['descriptor'])
+
+
+def eqhash_ColumnInfo(la: int, an: str, ac: bool, ac1: str, ac2: str, adr: bool, aky: bool,
+                      lb: int, bn: str, bc: bool, bk: int, bc1: str, bc2: str, bdr: bool, bky: bool, d: int) -> bool:
     """
-    VH_DESC=same: both objects carry the same descriptor (a's); free: independent descriptors.
-    pre: 0 <= au < NU and 0 <= bu < NU and 0 <= ak <= 4 and 0 <= bk <= 4
-    pre: CATA < 0 or ak == CATA
+    name, continuous, drop, category labels symbolic; categories kind (None / tuple / mapping, see mk_cats) of a
+    pinned by VH_CATA, of b symbolic over VH_CATKINDS; option fields: see CI_OPT (d = 5: descriptors differ, which
+    is excluded when VH_DESC=same and is the only case when VH_DESC=free: finding F1 isolated).
+    pre: bk in CATKINDS and 0 <= la <= STRLEN and 0 <= lb <= STRLEN and ulen(la, an, ac1, ac2) and ulen(lb, bn, bc1, bc2)
+    pre: (d == 5) if DESC == 'free' else (0 <= d <= 4)
     post: _ == True
     """
-    da = None if adn else ads
-    db = da if DESC == 'same' else (None if bdn else bds)
-    a = mk_col(an, at, au, asc, ac, mk_cats(ak, ac1, ac2), adr, adt, da)
-    b = mk_col(bn, bt, bu, bsc, bc, mk_cats(bk, bc1, bc2), bdr, bdt, db)
+    a = _ci(an, ac, mk_cats(CATA, ac1, ac2, 1 if aky else 0), adr, _ci_opts(0))
+    b = _ci(bn, bc, mk_cats(bk, bc1, bc2, 1 if bky else 0), bdr, _ci_opts(d))
     return eq_obligation(a, b)
 
 
-def _di_col(name, type, unit_i, cat, c1, drop, desc):
-    return mk_col(name, type, unit_i, 'ratio', True, (c1,) if cat else None, drop, 'float64', desc)
+def _di_col(name, is_id, unit_i, drop, desc):
+    return mk_col(name, 'id' if is_id else 'covariate', unit_i, 'ratio', True, None, drop, 'float64', desc)
 
 
-def eqhash_DataInfo(na: int, a1n: str, a1t: str, a1u: int, a1k: bool, a1c: str, a1d: bool,
-                    a2n: str, a2t: str, a2d: bool, ap: bool, asep: str, amdt: str,
-                    nb: int, b1n: str, b1t: str, b1u: int, b1k: bool, b1c: str, b1d: bool,
-                    b2n: str, b2t: str, b2d: bool, bp: bool, bsep: str, bmdt: str,
-                    d1n: bool, d1: str) -> bool:
+def eqhash_DataInfo(la: int, a1n: str, a1d: bool, a2n: str, a2d: bool, asep: str, amdt: str,
+                    lb: int, nb: int, b1n: str, b1t: bool, b1u: bool, b1d: bool, b2n: str, b2t: bool, b2d: bool,
+                    bsep: str, bmdt: str, d1: bool) -> bool:
     """
-    Columns at the same position carry the same descriptor (finding F1 is isolated in eqhash_ColumnInfo[desc=free]).
-    pre: 0 <= na <= 2 and 0 <= nb <= 2 and 0 <= a1u < NU and 0 <= b1u < NU
+    a: VH_NA columns of type covariate, unit UNITS[0], with a path; b: 0..2 columns of type covariate|id, first unit
+    UNITS[0|1], no path.  Symbolic: names, drop, separator, missing_data_token.  Other column fields fixed
+    (scale ratio, float64, categories None: see eqhash_ColumnInfo).  Columns at the same position carry the same
+    descriptor (None | 'age'; finding F1 is isolated in eqhash_ColumnInfo[desc=free]).
+    pre: 0 <= nb <= 2 and 0 <= la <= STRLEN and 0 <= lb <= STRLEN
+    pre: ulen(la, a1n, a2n, asep, amdt) and ulen(lb, b1n, b2n, bsep, bmdt)
     post: _ == True
     """
-    desc1 = None if d1n else d1
-    ca = [_di_col(a1n, a1t, a1u, a1k, a1c, a1d, desc1), _di_col(a2n, a2t, 0, False, '', a2d, None)]
-    cb = [_di_col(b1n, b1t, b1u, b1k, b1c, b1d, desc1), _di_col(b2n, b2t, 0, False, '', b2d, None)]
-    return eq_obligation(mk_di(ca[:na], ap, asep, amdt), mk_di(cb[:nb], bp, bsep, bmdt))
+    desc1 = 'age' if d1 else None
+    ca = [_di_col(a1n, False, 0, a1d, desc1), _di_col(a2n, False, 0, a2d, None)]
+    cb = [_di_col(b1n, b1t, 1 if b1u else 0, b1d, desc1), _di_col(b2n, b2t, 0, b2d, None)]
+    return eq_obligation(mk_di(ca[:NA], True, asep, amdt), mk_di(cb[:nb], False, bsep, bmdt))
 
 
 def eqhash_VariabilityLevel(an: str, ar: bool, agn: bool, ag: str, bn: str, br: bool, bgn: bool, bg: str) -> bool:
     """
+    pre: small(an, STRLEN) and small(ag, STRLEN) and small(bn, STRLEN) and small(bg, STRLEN)
     post: _ == True
     """
     return eq_obligation(mk_vl(an, ar, None if agn else ag), mk_vl(bn, br, None if bgn else bg))
 
 
 def eq3_VariabilityLevel(an: str, ar: bool, ag: str, bn: str, br: bool, bg: str, cn: str, cr: bool, cg: str,
-                         gn: int) -> bool:
+                         gn: int, l: int) -> bool:
     """
-    pre: 0 <= gn <= 3
+    pre: 0 <= gn <= 3 and 0 <= l <= STRLEN and ulen(l, an, ag, bn, bg, cn, cg)
     post: _ == True
     """
     return trans_obligation(mk_vl(an, ar, None if gn == 1 else ag), mk_vl(bn, br, None if gn == 2 else bg),
                             mk_vl(cn, cr, None if gn == 3 else cg))
 
 
-def eqhash_VariabilityHierarchy(na: int, a1n: str, a1r: bool, a1g: str, a2n: str, a2r: bool, a2gn: bool, a2g: str,
-                                a3n: str, a3r: bool,
-                                nb: int, b1n: str, b1r: bool, b1g: str, b2n: str, b2r: bool, b2gn: bool, b2g: str,
-                                b3n: str, b3r: bool) -> bool:
+def eqhash_VariabilityHierarchy(la: int, na: int, a1n: str, a1r: bool, a1g: str, a2n: str, a2r: bool, a2gn: bool,
+                                a2g: str, a3n: str, a3r: bool,
+                                lb: int, nb: int, b1n: str, b1r: bool, b1g: str, b2n: str, b2r: bool, b2gn: bool,
+                                b2g: str, b3n: str, b3r: bool) -> bool:
     """
-    pre: 0 <= na <= MAXN and 0 <= nb <= MAXN
+    pre: 0 <= na <= MAXN and 0 <= nb <= MAXN and 0 <= la <= STRLEN and 0 <= lb <= STRLEN
+    pre: ulen(la, a1n, a1g, a2n, a2g, a3n) and ulen(lb, b1n, b1g, b2n, b2g, b3n)
     post: _ == True
     """
-    la = [mk_vl(a1n, a1r, a1g), mk_vl(a2n, a2r, None if a2gn else a2g), mk_vl(a3n, a3r, None)]
-    lb = [mk_vl(b1n, b1r, b1g), mk_vl(b2n, b2r, None if b2gn else b2g), mk_vl(b3n, b3r, None)]
-    return eq_obligation(mk_vh(la[:na]), mk_vh(lb[:nb]))
+    la_ = [mk_vl(a1n, a1r, a1g), mk_vl(a2n, a2r, None if a2gn else a2g), mk_vl(a3n, a3r, None)]
+    lb_ = [mk_vl(b1n, b1r, b1g), mk_vl(b2n, b2r, None if b2gn else b2g), mk_vl(b3n, b3r, None)]
+    return eq_obligation(mk_vh(la_[:na]), mk_vh(lb_[:nb]))
 
 
 def _opt(flag, v):
     return None if (NONES and flag) else v
 
 
-def eqhash_EstimationStep(am: str, aint: bool, apum: str, aev: bool, amax: int, alap: bool, ais: int, ani: int,
-                          aauto: bool, akeep: int, anr: int, ar1: str, ar2: str, anp: int, ap1: str, ap2: str,
-                          asol: str, artol: int, aatol: int, ano: int, ak1: str, av1: int, ak2: str, av2: int,
-                          aies: bool, agi: bool, ags: bool, agb: bool,
-                          bm: str, bint: bool, bpum: str, bev: bool, bmax: int, blap: bool, bis: int, bni: int,
-                          bauto: bool, bkeep: int, bnr: int, br1: str, br2: str, bnp: int, bp1: str, bp2: str,
-                          bsol: str, brtol: int, batol: int, bno: int, bk1: str, bv1: int, bk2: str, bv2: int,
-                          bies: bool, bgi: bool, bgs: bool, bgb: bool) -> bool:
+ES_OPT = ['method', 'pum', 'solver']
+ES_BASE = [dict(method='FOCE', pum='SANDWICH', solver='LSODA'), dict(method='IMP', pum='SMAT', solver='IDA')]
+
+
+def _es_opts(d):
+    o = dict(ES_BASE[BASE])
+    if d > 0:
+        f = ES_OPT[d - 1]
+        o[f] = ES_BASE[1 - BASE][f]
+    return o
+
+
+def eqhash_EstimationStep(la: int, aint: bool, aev: bool, amax: int, alap: bool, ais: int,
+                          ani: int, aauto: bool, akeep: int, ar1: str, ap1: str, artol: int, aatol: int,
+                          ak1: bool, av1: int, av2: int, aies: bool, agi: bool, ags: bool,
+                          lb: int, bint: bool, bev: bool, bmax: int, blap: bool, bis: int,
+                          bni: int, bauto: bool, bkeep: int, bs: bool, br1: str, bp1: str, brtol: int,
+                          batol: int, bno: bool, bk1: bool, bv1: int, bv2: int, bies: bool, bgi: bool,
+                          bgs: bool, d: int) -> bool:
     """
-    derivatives = () (Expr-valued, outside).  VH_NONES=1: the Optional int fields / str fields / `auto` are None per
-    group according to the symbolic flags g*; VH_NONES=0: all set.  tool_options has <= VH_NOPT entries
-    (VH_NOPT=2: exactly 2 in both objects: finding F2 isolated there).
-    pre: 0 <= anr <= MAXN - 1 and 0 <= anp <= MAXN - 1 and 0 <= bnr <= MAXN - 1 and 0 <= bnp <= MAXN - 1
-    pre: (ano == 2 and bno == 2) if NOPT == 2 else (0 <= ano <= NOPT and 0 <= bno <= NOPT)
-    pre: min(amax, ais, ani, akeep, artol, aatol, av1, av2, bmax, bis, bni, bkeep, brtol, batol, bv1, bv2) >= 0
+    derivatives = () (Expr-valued, outside).  method / parameter_uncertainty_method / solver: valid options, b
+    differs from a in at most one of them (d, see ES_OPT).  a: residuals and predictions have VH_SHAPE[0] entries,
+    tool_options VH_SHAPE[1] entries; b: 0|1 residuals and predictions (bs), 0|1 tool options (bno); VH_NOPT=2:
+    exactly 2 tool options in both objects, keys in symbolic order (finding F2 isolated there).
+    VH_NONES=1: the Optional int fields and `auto` (flag gi) / the Optional str fields (flag gs) are None;
+    VH_NONES=0: all set.
+    pre: 0 <= la <= STRLEN and 0 <= lb <= STRLEN and ulen(la, ar1, ap1) and ulen(lb, br1, bp1) and 0 <= d <= 3
+    pre: amax >= 1 and bmax >= 1
     post: _ == True
     """
-    a = mk_est(am, aint, _opt(ags, apum), aev, _opt(agi, amax), alap, _opt(agi, ais), _opt(agi, ani),
-               _opt(agb, aauto), _opt(agi, akeep), mk_strs(anr, ar1, ar2), mk_strs(anp, ap1, ap2), _opt(ags, asol),
-               _opt(agi, artol), _opt(agi, aatol), mk_opts(ano, ak1, av1, ak2, av2), aies)
-    b = mk_est(bm, bint, _opt(bgs, bpum), bev, _opt(bgi, bmax), blap, _opt(bgi, bis), _opt(bgi, bni),
-               _opt(bgb, bauto), _opt(bgi, bkeep), mk_strs(bnr, br1, br2), mk_strs(bnp, bp1, bp2), _opt(bgs, bsol),
-               _opt(bgi, brtol), _opt(bgi, batol), mk_opts(bno, bk1, bv1, bk2, bv2), bies)
+    ka, kb = (1 if ak1 else 0), (1 if bk1 else 0)
+    na_s, na_o = SHAPE
+    nb_s, nb_o = (1 if bs else 0), (1 if bno else 0)
+    if NOPT == 2:
+        na_o = nb_o = 2
+    oa, ob = _es_opts(0), _es_opts(d)
+    a = mk_est(oa['method'], aint, _opt(ags, oa['pum']), aev, _opt(agi, amax), alap, _opt(agi, ais), _opt(agi, ani),
+               _opt(agi, aauto), _opt(agi, akeep), mk_strs(na_s, ar1, ''), mk_strs(na_s, ap1, ''),
+               _opt(ags, oa['solver']), _opt(agi, artol), _opt(agi, aatol), mk_opts(na_o, ka, av1, 1 - ka, av2), aies)
+    b = mk_est(ob['method'], bint, _opt(bgs, ob['pum']), bev, _opt(bgi, bmax), blap, _opt(bgi, bis), _opt(bgi, bni),
+               _opt(bgi, bauto), _opt(bgi, bkeep), mk_strs(nb_s, br1, ''), mk_strs(nb_s, bp1, ''),
+               _opt(bgs, ob['solver']), _opt(bgi, brtol), _opt(bgi, batol), mk_opts(nb_o, kb, bv1, 1 - kb, bv2), bies)
     return eq_obligation(a, b)
 
 
-def eqhash_SimulationStep(an: int, aseed: int, asn: bool, asol: str, artol: int, ano: int, ak1: str, av1: int,
-                          bn: int, bseed: int, bsn: bool, bsol: str, brtol: int, bno: int, bk1: str, bv1: int) -> bool:
+def eqhash_SimulationStep(an: int, aseed: int, asn: bool, asol: str, artol: int, ano: bool, av1: int,
+                          bn: int, bseed: int, bsn: bool, bsol: str, brtol: int, bno: bool, bv1: int) -> bool:
     """
-    pre: 0 <= ano <= 1 and 0 <= bno <= 1
-    pre: min(an, aseed, artol, av1, bn, bseed, brtol, bv1) >= 0
+    solver None | symbolic string, solver_rtol symbolic, solver_atol None, tool_options {} | {KEYS[0]: symbolic int}
+    pre: small(asol, STRLEN) and small(bsol, STRLEN)
     post: _ == True
     """
-    a = mk_sim(an, aseed, None if asn else asol, artol, None, mk_opts(ano, ak1, av1, '', 0))
-    b = mk_sim(bn, bseed, None if bsn else bsol, brtol, None, mk_opts(bno, bk1, bv1, '', 0))
+    a = mk_sim(an, aseed, None if asn else asol, artol, None, mk_opts(1 if ano else 0, 0, av1, 0, 0))
+    b = mk_sim(bn, bseed, None if bsn else bsol, brtol, None, mk_opts(1 if bno else 0, 0, bv1, 0, 0))
     return eq_obligation(a, b)
 
 
-def _step(is_sim, m, inter, mx, npred, p1, no, k1, v1, n, seed):
+def _step(is_sim, imp, inter, mx, n, seed):
     if is_sim:
-        return mk_sim(n, seed, None, None, None, mk_opts(0, '', 0, '', 0))
-    return mk_est(m, inter, None, False, mx, False, None, None, None, None, (), mk_strs(npred, p1, ''), None, None,
-                  None, mk_opts(no, k1, v1, '', 0), False)
+        return mk_sim(n, seed, None, None, None, mk_opts(0, 0, 0, 0, 0))
+    return mk_est('IMP' if imp else 'FOCE', inter, None, False, mx, False, None, None, None, None, (), (), None, None,
+                  None, mk_opts(0, 0, 0, 0, 0), False)
 
 
-def eqhash_ExecutionSteps(na: int, a1s: bool, a1m: str, a1i: bool, a1x: int, a1np: int, a1p: str, a1no: int,
-                          a1k: str, a1v: int, a1n: int, a1seed: int, a2s: bool, a2m: str, a2i: bool, a2n: int,
-                          nb: int, b1s: bool, b1m: str, b1i: bool, b1x: int, b1np: int, b1p: str, b1no: int,
-                          b1k: str, b1v: int, b1n: int, b1seed: int, b2s: bool, b2m: str, b2i: bool, b2n: int) -> bool:
+def eqhash_ExecutionSteps(a1s: bool, a1m: bool, a1i: bool, a1x: int, a1n: int, a1seed: int, a2s: bool,
+                          a2m: bool, a2i: bool, a2n: int,
+                          nb: int, b1s: bool, b1m: bool, b1i: bool, b1x: int, b1n: int, b1seed: int, b2s: bool,
+                          b2m: bool, b2i: bool, b2n: int) -> bool:
     """
-    pre: 0 <= na <= 2 and 0 <= nb <= 2
-    pre: 0 <= a1np <= 1 and 0 <= b1np <= 1 and 0 <= a1no <= 1 and 0 <= b1no <= 1
-    pre: min(a1x, a1v, a1n, a1seed, a2n, b1x, b1v, b1n, b1seed, b2n) >= 0
+    Steps: estimation (method FOCE|IMP, symbolic interaction, maximum_evaluations; other fields default) or
+    simulation (symbolic n, seed), kind symbolic per step.  a has VH_NA steps, b 0..2.
+    pre: 0 <= nb <= 2 and a1x >= 1 and b1x >= 1
     post: _ == True
     """
-    sa = [_step(a1s, a1m, a1i, a1x, a1np, a1p, a1no, a1k, a1v, a1n, a1seed),
-          _step(a2s, a2m, a2i, None, 0, '', 0, '', 0, a2n, 1)]
-    sb = [_step(b1s, b1m, b1i, b1x, b1np, b1p, b1no, b1k, b1v, b1n, b1seed),
-          _step(b2s, b2m, b2i, None, 0, '', 0, '', 0, b2n, 1)]
-    return eq_obligation(mk_steps(sa[:na]), mk_steps(sb[:nb]))
+    sa = [_step(a1s, a1m, a1i, a1x, a1n, a1seed), _step(a2s, a2m, a2i, None, a2n, 1)]
+    sb = [_step(b1s, b1m, b1i, b1x, b1n, b1seed), _step(b2s, b2m, b2i, None, b2n, 1)]
+    return eq_obligation(mk_steps(sa[:NA]), mk_steps(sb[:nb]))
 
 
 # ---------------------------------------------------------------------------------------------------------
@@ -474,36 +535,40 @@ def imm_Parameters(n: int, n1: str, n2: str, i1: float, newn: str, k: int) -> bo
     return _replace_ok(o, kw)
 
 
-TYPES = ['unknown', 'covariate', 'id']
-SCALES = ['ratio', 'nominal', 'interval', 'ordinal']
-DTYPES = ['float64', 'int32', 'nmtran-date']
-DESCS = [None, 'age', 'body weight']
 CI_FIELDS = ['name', 'type', 'unit', 'scale', 'continuous', 'categories', 'drop', 'datatype', 'descriptor']
+CI_NEW = {   # new values offered to replace(): valid and invalid ones, selected by a symbolic index
+    'type': ['id', 'dv', 'bogus'], 'scale': ['nominal', 'interval', 'bogus'], 'datatype': ['int32', 'str', 'bogus'],
+    'descriptor': [None, 'body weight', 'bogus'],
+}
 
 
-def imm_ColumnInfo(name: str, si: int, cont: bool, drop: bool, ck: int, c1: str, c2: str, k: int, ns: str, nb: bool,
+def imm_ColumnInfo(name: str, nominal: bool, cont: bool, drop: bool, cat: bool, c1: str, k: int, ns: str, nb: bool,
                    nk: int) -> bool:
     """
-    A created column (symbolic name/scale/continuous/drop/categories, other fields default); replace one field k
-    by a symbolic value (strings for name/type/scale/datatype/descriptor, table index for unit, bool, categories).
-    pre: 0 <= si <= 3 and 0 <= ck <= 4 and 0 <= k <= 8 and 0 <= nk <= 4 and small(ns, 3)
+    A created column (symbolic name, scale ratio|nominal, continuous, drop, categories None|(c1,), other fields
+    fixed); replace field k by a new value: symbolic string (name), symbolic bool, or a table entry chosen by the
+    symbolic index nk (valid and invalid options, units, categories of every accepted and one rejected kind).
+    pre: 0 <= k <= 8 and 0 <= nk <= 2 and small(ns, STRLEN) and small(name, STRLEN) and small(c1, STRLEN)
     post: _ == True
     """
     try:
-        o = D.ColumnInfo.create(name, 'covariate', UNITS[1], SCALES[si], cont, mk_cats(ck, c1, c2), drop, 'float64', 'age')
+        o = D.ColumnInfo.create(name, 'covariate', UNITS[1], 'nominal' if nominal else 'ratio', cont,
+                                (c1,) if cat else None, drop, 'float64', 'age')
     except ValueError:
         return True
     if not _frozen(o, ns):
         return False
     f = CI_FIELDS[k]
-    if f == 'unit':
-        val = UNITS[nk % len(UNITS)]
+    if f == 'name':
+        val = ns
+    elif f == 'unit':
+        val = UNITS[nk]
     elif f in ('continuous', 'drop'):
         val = nb
     elif f == 'categories':
-        val = [None, [ns], {ns: c1}, (c1, ns), 7][nk]
+        val = [None, [ns, c1], {'a': ns}][nk] if nb else [(c1, ns), frozenmapping({'b': c1}), 7][nk]
     else:
-        val = ns
+        val = CI_NEW[f][nk]
     return _replace_ok(o, {f: val})
 
 
@@ -554,31 +619,35 @@ METHODS = ['foce', 'FO', 'imp']
 ES_FIELDS = ['method', 'interaction', 'parameter_uncertainty_method', 'evaluation', 'maximum_evaluations',
              'laplace', 'isample', 'niter', 'auto', 'keep_every_nth_iter', 'residuals', 'predictions', 'solver',
              'solver_rtol', 'solver_atol', 'tool_options', 'derivatives', 'individual_eta_samples']
+ES_NEW = {'method': ['saem', 'Fo', 'bogus'], 'parameter_uncertainty_method': [None, 'smat', 'bogus'],
+          'solver': [None, 'ida', 'bogus']}
 
 
-def imm_EstimationStep(mi: int, inter: bool, mx: int, p1: str, k1: str, v1: int, k: int, ns: str, nb: bool,
-                       ni: int, nn: bool) -> bool:
+def imm_EstimationStep(foce: bool, inter: bool, mx: int, v1: int, k: int, ns: str, nb: bool, ni: int, nk: int) -> bool:
     """
-    pre: 0 <= mi <= 2 and 1 <= mx <= 9999 and 0 <= k <= 17 and small(ns, 2, 'FOfo')
+    A created step (method foce|FO, symbolic interaction, maximum_evaluations, tool option value); replace field k
+    by a symbolic bool / int / None, a string list containing a symbolic string, or a table entry (valid and invalid
+    option strings) chosen by the symbolic index nk.
+    pre: mx >= 1 and 0 <= k <= 17 and 0 <= nk <= 2 and small(ns, STRLEN)
     post: _ == True
     """
-    o = X.EstimationStep.create(METHODS[mi], interaction=inter, maximum_evaluations=mx, predictions=[p1, 'a'],
-                                tool_options={k1: v1}, solver='lsoda')
+    o = X.EstimationStep.create('foce' if foce else 'FO', interaction=inter, maximum_evaluations=mx,
+                                predictions=['x', 'a'], tool_options={'a': v1}, solver='lsoda')
     if not _frozen(o, ns):
         return False
     f = ES_FIELDS[k]
-    if f in ('method', 'parameter_uncertainty_method', 'solver'):
-        val = None if (nn and f != 'method') else ns
+    if f in ES_NEW:
+        val = ES_NEW[f][nk]
     elif f in ('interaction', 'evaluation', 'laplace', 'auto', 'individual_eta_samples'):
         val = nb
     elif f in ('residuals', 'predictions'):
-        val = [ns, p1]
+        val = [ns, 'm']
     elif f == 'tool_options':
-        val = {ns: ni}
+        val = {'b': ni}
     elif f == 'derivatives':
         val = ()
     else:
-        val = None if nn else ni
+        val = None if nb else ni
     return _replace_ok(o, {f: val})
 
 
@@ -632,9 +701,9 @@ def param_create_nan_bound__twin(name: str, init: float, which: int, other: floa
 def param_replace__twin(name: str, init: float, lower: float, upper: float, fix: bool, k: int, newname: str, v: float,
                         newfix: bool) -> bool:
     """
-    pre: lower <= init <= upper and 0 <= k <= 4
+    pre: lower <= init <= upper and 0 <= k <= 4 and (PK < 0 or k == PK)
     pre: v == v or k == 1
-    pre: k == 1 and lower <= v <= upper
+    pre: lower <= v <= upper
     post: _ == True
     """
     return not param_replace(name, init, lower, upper, fix, k, newname, v, newfix)
@@ -642,7 +711,7 @@ def param_replace__twin(name: str, init: float, lower: float, upper: float, fix:
 
 def params_create_unique__twin(n: int, n1: str, n2: str, n3: str, n4: str, via: int) -> bool:
     """
-    pre: 0 <= n <= MAXN + 1 and 0 <= via <= 5
+    pre: 0 <= n <= MAXN + 1 and 0 <= via <= 5 and (PK < 0 or via == PK)
     pre: small(n1, 2, 'ab') and small(n2, 2, 'ab') and small(n3, 2, 'ab') and small(n4, 2, 'ab')
     pre: n >= 2 and n1 != n2 and n1 != n3 and n2 != n3 and n4 not in (n1, n2, n3)
     post: _ == True
@@ -660,149 +729,117 @@ def rvs_create_unique__twin(n: int, n1: str, n2: str, n3: str, joint: bool) -> b
     return not rvs_create_unique(n, n1, n2, n3, joint)
 
 
-def eqhash_Parameter__twin(an: str, ai: float, al: float, au: float, af: bool,
-                           bn: str, bi: float, bl: float, bu: float, bf: bool) -> bool:
+def eqhash_Parameter__twin(an: str, ai: float, al: float, au: float, af: bool) -> bool:
     """
-    pre: al == al and au == au and bl == bl and bu == bu
-    pre: al <= ai <= au and an == bn and ai == bi and al == bl and au == bu and af == bf
+    witness: two equal reachable parameters pass all laws
+    pre: al <= ai <= au and small(an, STRLEN)
     post: _ == True
     """
-    a, b = mk_param(an, ai, al, au, af), mk_param(bn, bi, bl, bu, bf)
-    return not (eq_obligation(a, b) and a == b)
+    a, b = mk_param(an, ai, al, au, af), mk_param(an, ai, al, au, af)
+    return not (eq_obligation(a, b) and a == b and reachable(a, b))
 
 
-def eq3_Parameter__twin(an: str, ai: float, al: float, af: bool, bn: str, bi: float, bl: float, bf: bool,
-                        cn: str, ci: float, cl: float, cf: bool) -> bool:
+def eq3_Parameter__twin(an: str, ai: float, af: bool) -> bool:
     """
-    pre: al == al and bl == bl and cl == cl
-    pre: an == bn == cn and ai == bi == ci and al == bl == cl and af == bf == cf and al <= ai
+    pre: ai == ai and small(an, STRLEN)
     post: _ == True
     """
     inf = float('inf')
-    a, b, c = mk_param(an, ai, al, inf, af), mk_param(bn, bi, bl, inf, bf), mk_param(cn, ci, cl, inf, cf)
-    return not (trans_obligation(a, b, c) and a == b and b == c)
+    a, b, c = mk_param(an, ai, -inf, inf, af), mk_param(an, ai, -inf, inf, af), mk_param(an, ai, -inf, inf, af)
+    return not (trans_obligation(a, b, c) and a == b and b == c and reachable(a, b, c))
 
 
-def eqhash_Parameters__twin(na: int, a1n: str, a1i: float, a1l: float, a1f: bool, a2n: str, a2i: float, a2l: float,
-                            a2f: bool, a3n: str, a3i: float, a3f: bool,
-                            nb: int, b1n: str, b1i: float, b1l: float, b1f: bool, b2n: str, b2i: float, b2l: float,
-                            b2f: bool, b3n: str, b3i: float, b3f: bool) -> bool:
+def eqhash_Parameters__twin(a1n: str, a1i: float, a1l: float, a1f: bool, a2n: str, a2i: float, a2f: bool) -> bool:
     """
-    pre: 0 <= na <= MAXN and 0 <= nb <= MAXN
-    pre: a1l == a1l and a2l == a2l and b1l == b1l and b2l == b2l
-    pre: na == nb == 2 and a1n == b1n and a1i == b1i and a1l == b1l and a1f == b1f
-    pre: a2n == b2n and a2i == b2i and a2l == b2l and a2f == b2f
+    pre: small(a1n, STRLEN) and small(a2n, STRLEN) and a1l <= a1i and a2i == a2i and a1n != a2n
     post: _ == True
     """
     inf = float('inf')
-    a = mk_params([mk_param(a1n, a1i, a1l, inf, a1f), mk_param(a2n, a2i, a2l, inf, a2f)])
-    b = mk_params([mk_param(b1n, b1i, b1l, inf, b1f), mk_param(b2n, b2i, b2l, inf, b2f)])
-    return not (eq_obligation(a, b) and a == b)
+    a = mk_params([_pelem(a1n, a1i, a1l, a1f), _pelem(a2n, a2i, -inf, a2f)])
+    b = mk_params([_pelem(a1n, a1i, a1l, a1f), _pelem(a2n, a2i, -inf, a2f)])
+    return not (eq_obligation(a, b) and a == b and reachable(a, b))
 
 
-def eqhash_ColumnInfo__twin(an: str, at: str, au: int, asc: str, ac: bool, ak: int, ac1: str, ac2: str, adr: bool,
-                            adt: str, adn: bool, ads: str,
-                            bn: str, bt: str, bu: int, bsc: str, bc: bool, bk: int, bc1: str, bc2: str, bdr: bool,
-                            bdt: str, bdn: bool, bds: str) -> bool:
+def eqhash_ColumnInfo__twin(an: str, ac: bool, ac1: str, ac2: str, adr: bool, aky: bool) -> bool:
     """
-    pre: 0 <= au < NU and 0 <= bu < NU and 0 <= ak <= 4 and 0 <= bk <= 4
-    pre: CATA < 0 or ak == CATA
-    pre: an == bn and at == bt and au == bu and asc == bsc and ac == bc and ak == bk and ac1 == bc1 and ac2 == bc2
-    pre: adr == bdr and adt == bdt and adn == bdn and ads == bds
+    pre: ulen(1, an, ac1, ac2)
     post: _ == True
     """
-    da = None if adn else ads
-    a = mk_col(an, at, au, asc, ac, mk_cats(ak, ac1, ac2), adr, adt, da)
-    b = mk_col(bn, bt, bu, bsc, bc, mk_cats(bk, bc1, bc2), bdr, bdt, da)
-    return not (eq_obligation(a, b) and a == b)
+    a = _ci(an, ac, mk_cats(CATA, ac1, ac2, 1 if aky else 0), adr, _ci_opts(0))
+    b = _ci(an, ac, mk_cats(CATA, ac1, ac2, 1 if aky else 0), adr, _ci_opts(0))
+    return not (eq_obligation(a, b) and a == b and reachable(a, b))
 
 
-def eqhash_DataInfo__twin(na: int, a1n: str, a1t: str, a1u: int, a1k: bool, a1c: str, a1d: bool,
-                          a2n: str, a2t: str, a2d: bool, ap: bool, asep: str, amdt: str,
-                          nb: int, b1n: str, b1t: str, b1u: int, b1k: bool, b1c: str, b1d: bool,
-                          b2n: str, b2t: str, b2d: bool, bp: bool, bsep: str, bmdt: str,
-                          d1n: bool, d1: str) -> bool:
+def eqhash_DataInfo__twin(a1n: str, a1d: bool, a2n: str, a2d: bool, asep: str, amdt: str) -> bool:
     """
-    pre: 0 <= na <= 2 and 0 <= nb <= 2 and 0 <= a1u < NU and 0 <= b1u < NU
-    pre: na == nb == 2 and a1n == b1n and a1t == b1t and a1u == b1u and a1k == b1k and a1c == b1c and a1d == b1d
-    pre: a2n == b2n and a2t == b2t and a2d == b2d
-    post: _ == True
-    """
-    desc1 = None if d1n else d1
-    ca = [_di_col(a1n, a1t, a1u, a1k, a1c, a1d, desc1), _di_col(a2n, a2t, 0, False, '', a2d, None)]
-    cb = [_di_col(b1n, b1t, b1u, b1k, b1c, b1d, desc1), _di_col(b2n, b2t, 0, False, '', b2d, None)]
-    a, b = mk_di(ca, ap, asep, amdt), mk_di(cb, bp, bsep, bmdt)
-    return not (eq_obligation(a, b) and a == b)
-
-
-def eqhash_VariabilityLevel__twin(an: str, ar: bool, agn: bool, ag: str, bn: str, br: bool, bgn: bool, bg: str) -> bool:
-    """
-    pre: an == bn and ar == br and agn == bgn and ag == bg
-    post: _ == True
-    """
-    a, b = mk_vl(an, ar, None if agn else ag), mk_vl(bn, br, None if bgn else bg)
-    return not (eq_obligation(a, b) and a == b)
-
-
-def eq3_VariabilityLevel__twin(an: str, ar: bool, ag: str, bn: str, br: bool, bg: str, cn: str, cr: bool, cg: str,
-                               gn: int) -> bool:
-    """
-    pre: gn == 0 and an == bn == cn and ar == br == cr and ag == bg == cg
-    post: _ == True
-    """
-    a, b, c = mk_vl(an, ar, ag), mk_vl(bn, br, bg), mk_vl(cn, cr, cg)
-    return not (trans_obligation(a, b, c) and a == b and b == c)
-
-
-def eqhash_VariabilityHierarchy__twin(na: int, a1n: str, a1r: bool, a1g: str, a2n: str, a2r: bool, a2gn: bool,
-                                      a2g: str, a3n: str, a3r: bool,
-                                      nb: int, b1n: str, b1r: bool, b1g: str, b2n: str, b2r: bool, b2gn: bool,
-                                      b2g: str, b3n: str, b3r: bool) -> bool:
-    """
-    pre: 0 <= na <= MAXN and 0 <= nb <= MAXN
-    pre: na == nb == 2 and a1n == b1n and a1r == b1r and a1g == b1g and a2n == b2n and a2r == b2r and a2gn == b2gn
-    pre: a2g == b2g
-    post: _ == True
-    """
-    a = mk_vh([mk_vl(a1n, a1r, a1g), mk_vl(a2n, a2r, None if a2gn else a2g)])
-    b = mk_vh([mk_vl(b1n, b1r, b1g), mk_vl(b2n, b2r, None if b2gn else b2g)])
-    return not (eq_obligation(a, b) and a == b)
-
-
-def eqhash_EstimationStep__twin(am: str, aint: bool, amax: int, anp: int, ap1: str, ano: int, ak1: str,
-                                av1: int) -> bool:
-    """
-    pre: 0 <= anp <= 1 and 0 <= ano <= 1 and amax >= 0 and av1 >= 0
-    post: _ == True
-    """
-    a = mk_est(am, aint, None, False, amax, False, None, None, None, None, (), mk_strs(anp, ap1, ''), None, None, None,
-               mk_opts(ano, ak1, av1, '', 0), False)
-    b = mk_est(am, aint, None, False, amax, False, None, None, None, None, (), mk_strs(anp, ap1, ''), None, None, None,
-               mk_opts(ano, ak1, av1, '', 0), False)
-    return not (eq_obligation(a, b) and a == b)
-
-
-def eqhash_SimulationStep__twin(an: int, aseed: int, asn: bool, asol: str, artol: int, ano: int, ak1: str,
-                                av1: int) -> bool:
-    """
-    pre: 0 <= ano <= 1 and min(an, aseed, artol, av1) >= 0
-    post: _ == True
-    """
-    a = mk_sim(an, aseed, None if asn else asol, artol, None, mk_opts(ano, ak1, av1, '', 0))
-    b = mk_sim(an, aseed, None if asn else asol, artol, None, mk_opts(ano, ak1, av1, '', 0))
-    return not (eq_obligation(a, b) and a == b)
-
-
-def eqhash_ExecutionSteps__twin(a1s: bool, a1m: str, a1i: bool, a1x: int, a1n: int, a1seed: int, a2m: str) -> bool:
-    """
-    pre: min(a1x, a1n, a1seed) >= 0
+    pre: ulen(1, a1n, a2n, asep, amdt)
     post: _ == True
     """
     def mk():
-        return mk_steps([_step(a1s, a1m, a1i, a1x, 0, '', 0, '', 0, a1n, a1seed),
-                         _step(False, a2m, False, None, 0, '', 0, '', 0, 1, 1)])
+        return mk_di([_di_col(a1n, False, 0, a1d, None), _di_col(a2n, True, 0, a2d, None)], True, asep, amdt)
     a, b = mk(), mk()
-    return not (eq_obligation(a, b) and a == b)
+    return not (eq_obligation(a, b) and a == b and reachable(a, b))
+
+
+def eqhash_VariabilityLevel__twin(an: str, ar: bool, agn: bool, ag: str) -> bool:
+    """
+    pre: small(an, STRLEN) and small(ag, STRLEN)
+    post: _ == True
+    """
+    a, b = mk_vl(an, ar, None if agn else ag), mk_vl(an, ar, None if agn else ag)
+    return not (eq_obligation(a, b) and a == b and reachable(a, b))
+
+
+def eq3_VariabilityLevel__twin(an: str, ar: bool, ag: str) -> bool:
+    """
+    pre: small(an, STRLEN) and small(ag, STRLEN)
+    post: _ == True
+    """
+    a, b, c = mk_vl(an, ar, ag), mk_vl(an, ar, ag), mk_vl(an, ar, ag)
+    return not (trans_obligation(a, b, c) and a == b and b == c and reachable(a, b, c))
+
+
+def eqhash_VariabilityHierarchy__twin(a1n: str, a1r: bool, a1g: str, a2n: str, a2r: bool) -> bool:
+    """
+    pre: ulen(1, a1n, a1g, a2n)
+    post: _ == True
+    """
+    a = mk_vh([mk_vl(a1n, a1r, a1g), mk_vl(a2n, a2r, None)])
+    b = mk_vh([mk_vl(a1n, a1r, a1g), mk_vl(a2n, a2r, None)])
+    return not (eq_obligation(a, b) and a == b and reachable(a, b))
+
+
+def eqhash_EstimationStep__twin(aint: bool, amax: int, ap1: str, av1: int) -> bool:
+    """
+    pre: ulen(1, ap1) and amax >= 1
+    post: _ == True
+    """
+    def mk():
+        return mk_est('FOCE', aint, 'SMAT', False, amax, False, None, None, None, None, (), (ap1,), 'IDA',
+                      None, None, mk_opts(1, 0, av1, 0, 0), False)
+    a, b = mk(), mk()
+    return not (eq_obligation(a, b) and a == b and reachable(a, b))
+
+
+def eqhash_SimulationStep__twin(an: int, aseed: int, asol: str, artol: int, av1: int) -> bool:
+    """
+    pre: ulen(1, asol)
+    post: _ == True
+    """
+    a = mk_sim(an, aseed, asol, artol, None, mk_opts(1, 0, av1, 0, 0))
+    b = mk_sim(an, aseed, asol, artol, None, mk_opts(1, 0, av1, 0, 0))
+    return not (eq_obligation(a, b) and a == b and reachable(a, b))
+
+
+def eqhash_ExecutionSteps__twin(a1s: bool, a1m: bool, a1i: bool, a1x: int, a1n: int, a1seed: int, a2m: bool) -> bool:
+    """
+    pre: a1x >= 1
+    post: _ == True
+    """
+    def mk():
+        return mk_steps([_step(a1s, a1m, a1i, a1x, a1n, a1seed), _step(False, a2m, False, None, 1, 1)])
+    a, b = mk(), mk()
+    return not (eq_obligation(a, b) and a == b and reachable(a, b))
 
 
 def imm_Parameter__twin(name: str, init: float, lower: float, fix: bool, v: str) -> bool:
@@ -822,14 +859,14 @@ def imm_Parameters__twin(n: int, n1: str, n2: str, i1: float, newn: str, k: int)
     return not imm_Parameters(n, n1, n2, i1, newn, k)
 
 
-def imm_ColumnInfo__twin(name: str, si: int, cont: bool, drop: bool, ck: int, c1: str, c2: str, k: int, ns: str,
+def imm_ColumnInfo__twin(name: str, nominal: bool, cont: bool, drop: bool, cat: bool, c1: str, k: int, ns: str,
                          nb: bool, nk: int) -> bool:
     """
-    pre: 0 <= si <= 3 and 0 <= ck <= 4 and 0 <= k <= 8 and 0 <= nk <= 4 and small(ns, 3)
-    pre: si == 0 and cont and k == 0
+    pre: 0 <= k <= 8 and 0 <= nk <= 2 and small(ns, STRLEN) and small(name, STRLEN) and small(c1, STRLEN)
+    pre: not nominal and k == 1 and nk == 0
     post: _ == True
     """
-    return not imm_ColumnInfo(name, si, cont, drop, ck, c1, c2, k, ns, nb, nk)
+    return not imm_ColumnInfo(name, nominal, cont, drop, cat, c1, k, ns, nb, nk)
 
 
 def imm_DataInfo__twin(n: int, n1: str, n2: str, drop: bool, has_path: bool, sep: str, k: int, ns: str) -> bool:
@@ -859,14 +896,14 @@ def imm_VariabilityHierarchy__twin(n: int, n1: str, r1: bool, n2: str, r2: bool,
     return not imm_VariabilityHierarchy(n, n1, r1, n2, r2, k, ns, nr)
 
 
-def imm_EstimationStep__twin(mi: int, inter: bool, mx: int, p1: str, k1: str, v1: int, k: int, ns: str, nb: bool,
-                             ni: int, nn: bool) -> bool:
+def imm_EstimationStep__twin(foce: bool, inter: bool, mx: int, v1: int, k: int, ns: str, nb: bool, ni: int,
+                             nk: int) -> bool:
     """
-    pre: 0 <= mi <= 2 and 1 <= mx <= 9999 and 0 <= k <= 17 and small(ns, 2, 'FOfo')
-    pre: k == 0 and ns == 'fo'
+    pre: mx >= 1 and 0 <= k <= 17 and 0 <= nk <= 2 and small(ns, STRLEN)
+    pre: k == 0 and nk == 0
     post: _ == True
     """
-    return not imm_EstimationStep(mi, inter, mx, p1, k1, v1, k, ns, nb, ni, nn)
+    return not imm_EstimationStep(foce, inter, mx, v1, k, ns, nb, ni, nk)
 
 
 def imm_SimulationStep__twin(n: int, seed: int, k: int, ni: int) -> bool:
